@@ -297,12 +297,15 @@ def add_rsa_key(reg):
                      ensures={'rsaep': 'result == pow(plaintext, self._e._value, self._n._value)',
                               'range': '0 <= result and result < self._n._value'},
                      modifies=[], result='int'))
-    reg.add(Contract(RSA + 'RsaKey._decrypt_to_bytes', params={'ciphertext': 'int'},
+    # one draw of the SYSTEM entropy source (the blinding factor; proved of the real body by unit sig.pkcs1.RsaKey._decrypt_to_bytes.body):
+    # call sites advance sys_cursor, so no caller can claim "no system entropy" through this contract
+    add_entropy_contract(reg, Contract(RSA + 'RsaKey._decrypt_to_bytes', params={'ciphertext': 'int'},
                      raises={'ValueError': ('iff', 'not (0 <= ciphertext and ciphertext < self._n._value)'),
                              'TypeError': ('iff', '0 <= ciphertext and ciphertext < self._n._value and not hasattr(self, "_d")')},
                      returns='i2osp(pow(ciphertext, self._d._value, self._n._value), spec.rfc8017.octets(self._n._value))',
                      modifies=[], options={'exact': True},
-                     assumed='RSADP with blinding and CRT == c^d mod n, I2OSP to k octets (DESIGN C07 P1; bounded/bigint.py, bounded/accel.py)'))
+                     assumed='RSADP with blinding and CRT == c^d mod n, I2OSP to k octets (DESIGN C07 P1; bounded/bigint.py, bounded/accel.py)'),
+                         draws_const(1, 0))
 
 
 def common_registry():
